@@ -1,13 +1,296 @@
-//! C01 — stub (not built yet; not registered in MANIFEST.json).
-use super::*;
+//! C01 — cell content survives save and reload.
+use super::Prop;
+use crate::engine::*;
+use crate::gen::text::*;
+use crate::gen::wb::*;
+use proptest::prelude::*;
+use serde::{Deserialize, Serialize};
+use std::collections::BTreeMap;
+use std::io::Cursor;
+use umya_spreadsheet::{CellRawValue, Spreadsheet, Worksheet};
 
 pub fn prop() -> Prop {
     Prop {
         id: "C01",
-        describe: |_| {},
-        subs: no_subs,
-        extra: no_extra,
-        replay_extra: no_replay_extra,
-        watchdog_s: (900, 7200),
+        describe,
+        subs,
+        extra: super::no_extra,
+        replay_extra: super::no_replay_extra,
+        watchdog_s: (1200, 14400),
     }
+}
+
+fn describe(ctx: &Ctx) {
+    ctx.rule("generated workbooks (1..4 sheets, 0..60 cells per sheet at boundary/random positions up to XFD1048576; value kinds blank/text/rich text/number/boolean/error, optional formula with a cached result of any kind; standard and light writer) built through the public API, saved to memory and reloaded eagerly; compared per sheet: set of non-blank cells, value text, value kind, formula text, number bits, rich-text runs. Non-trivial = workbook contains text with an XML special / edge blank / line break / non-BMP char, or a non-integer number, or a formula, or an error/boolean; distinct by full case");
+    ctx.assume("a cell counts as non-blank when its value text is non-empty or it has a formula; for an empty value text the kinds blank and text are not distinguished");
+    ctx.assume("Lazy values (set_value_lazy) are not generated: not one of the value kinds the statement names");
+}
+
+#[derive(Debug, Clone, Serialize, Deserialize)]
+pub struct Case {
+    pub wb: WbSpec,
+    pub light: bool,
+}
+
+fn strategy(t: Tier) -> BoxedStrategy<Case> {
+    let (cells, text) = t.pick((40, 40), (60, 300));
+    (wb_spec(4, cells, text), any::<bool>())
+        .prop_map(|(wb, light)| Case { wb, light })
+        .boxed()
+}
+
+#[derive(Debug, Clone, PartialEq)]
+pub struct CellDump {
+    pub text: String,
+    pub kind: &'static str,
+    pub formula: String,
+    pub number: Option<u64>,
+    pub runs: Vec<(String, bool, bool, Option<String>, Option<String>)>,
+}
+
+pub fn dump_cell(c: &umya_spreadsheet::Cell) -> CellDump {
+    let raw = c.get_raw_value();
+    let kind = match raw {
+        CellRawValue::String(_) => "text",
+        CellRawValue::RichText(_) => "rich",
+        CellRawValue::Lazy(_) => "lazy",
+        CellRawValue::Numeric(_) => "number",
+        CellRawValue::Bool(_) => "bool",
+        CellRawValue::Error(_) => "error",
+        CellRawValue::Empty => "blank",
+    };
+    let runs = match raw {
+        CellRawValue::RichText(rt) => rt
+            .get_rich_text_elements()
+            .iter()
+            .map(|e| {
+                let f = e.get_run_properties();
+                (
+                    e.get_text().to_string(),
+                    f.map_or(false, |f| *f.get_bold()),
+                    f.map_or(false, |f| *f.get_italic()),
+                    f.map(|f| format!("{}", f.get_size())),
+                    f.map(|f| f.get_name().to_string()),
+                )
+            })
+            .collect(),
+        _ => Vec::new(),
+    };
+    CellDump {
+        text: c.get_value().to_string(),
+        kind,
+        formula: c.get_formula().to_string(),
+        number: c.get_value_number().map(|f| f.to_bits()),
+        runs,
+    }
+}
+
+pub fn dump_sheet(ws: &Worksheet) -> BTreeMap<(u32, u32), CellDump> {
+    let mut m = BTreeMap::new();
+    for c in ws.get_cell_collection() {
+        let co = c.get_coordinate();
+        m.insert((*co.get_row_num(), *co.get_col_num()), dump_cell(c));
+    }
+    m
+}
+
+fn expected_cell(c: &CellSpec) -> CellDump {
+    let runs = match &c.value {
+        ValueSpec::Rich(rs) => rs
+            .iter()
+            .map(|r| {
+                let has_font = r.bold || r.italic || r.size.is_some() || r.font_name.is_some();
+                (
+                    r.text.clone(),
+                    r.bold,
+                    r.italic,
+                    if has_font { Some(format!("{}", r.size.map(|s| s as f64).unwrap_or(11.0))) } else { None },
+                    if has_font { Some(r.font_name.clone().unwrap_or_else(|| "Calibri".to_string())) } else { None },
+                )
+            })
+            .collect(),
+        _ => Vec::new(),
+    };
+    CellDump {
+        text: c.value.text(),
+        kind: c.value.kind(),
+        formula: c.formula.clone().unwrap_or_default(),
+        number: match &c.value {
+            ValueSpec::Number(n) => Some(n.0.to_bits()),
+            _ => None,
+        },
+        runs,
+    }
+}
+
+pub fn text_class(s: &str) -> &'static str {
+    if s.is_empty() {
+        "empty"
+    } else if s.contains('\r') {
+        "cr"
+    } else if s.chars().any(|c| (c as u32) < 0x20 && c != '\t' && c != '\n') {
+        "c0-control"
+    } else if has_edge_blank(s) {
+        "edge-blank"
+    } else if s.contains('\n') || s.contains('\t') {
+        "linebreak-tab"
+    } else if s.contains("_x") {
+        "escape-lookalike"
+    } else if needs_xml_escape(s) {
+        "xml-special"
+    } else if has_non_bmp(s) {
+        "non-bmp"
+    } else if !s.is_ascii() {
+        "non-ascii"
+    } else {
+        "plain"
+    }
+}
+
+fn feature(c: &CellSpec) -> String {
+    let base = match &c.value {
+        ValueSpec::Text(s) => format!("text:{}", text_class(s)),
+        ValueSpec::Rich(rs) => {
+            let all: String = rs.iter().map(|r| r.text.as_str()).collect();
+            format!("rich:{}", text_class(&all))
+        }
+        v => v.kind().to_string(),
+    };
+    if c.formula.is_some() {
+        format!("formula+{}", base)
+    } else {
+        base
+    }
+}
+
+fn is_blank(d: &CellDump) -> bool {
+    d.text.is_empty() && d.formula.is_empty()
+}
+
+pub fn save(book: &Spreadsheet, light: bool) -> Result<Vec<u8>, String> {
+    let mut buf = Cursor::new(Vec::new());
+    let r = if light {
+        umya_spreadsheet::writer::xlsx::write_writer_light(book, &mut buf)
+    } else {
+        umya_spreadsheet::writer::xlsx::write_writer(book, &mut buf)
+    };
+    r.map_err(|e| format!("{:?}", e))?;
+    Ok(buf.into_inner())
+}
+
+pub fn load(bytes: &[u8]) -> Result<Spreadsheet, String> {
+    umya_spreadsheet::reader::xlsx::read_reader(Cursor::new(bytes.to_vec()), true).map_err(|e| format!("{:?}", e))
+}
+
+fn check(case: &Case, obs: &mut Obs) -> Verdict {
+    let spec = &case.wb;
+    // labels
+    let mut nt = false;
+    for s in &spec.sheets {
+        for c in s.cell_map().values() {
+            let f = feature(c);
+            obs.class(f.clone());
+            match &c.value {
+                ValueSpec::Text(t) => nt |= !matches!(text_class(t), "plain" | "empty" | "non-ascii"),
+                ValueSpec::Rich(_) => nt = true,
+                ValueSpec::Number(n) => nt |= n.0.fract() != 0.0,
+                ValueSpec::Bool(_) | ValueSpec::Error(_) => nt = true,
+                ValueSpec::Blank => {}
+            }
+            nt |= c.formula.is_some();
+        }
+    }
+    obs.nontrivial(nt);
+    obs.class(if case.light { "writer:light" } else { "writer:standard" });
+    obs.class(format!("sheets:{}", spec.sheets.len()));
+
+    let book = match guard(|| build(spec)) {
+        Ok(b) => b,
+        Err(p) => return Verdict::fail(format!("build/panic:{}", p.site()), p.short()),
+    };
+    // the model must agree with the API before saving, otherwise the case says nothing
+    for (i, s) in spec.sheets.iter().enumerate() {
+        let ws = book.get_sheet(&i).unwrap();
+        let got = dump_sheet(ws);
+        for (pos, c) in s.cell_map() {
+            let e = expected_cell(c);
+            match got.get(&pos) {
+                Some(g) if *g == e => {}
+                other => return Verdict::Discard(format!("pre-save model mismatch at {:?}: {:?} vs {:?}", pos, other, e)),
+            }
+        }
+    }
+    let bytes = match guard(|| save(&book, case.light)) {
+        Ok(Ok(b)) => b,
+        Ok(Err(e)) => return Verdict::fail("save/error", e),
+        Err(p) => return Verdict::fail(format!("save/panic:{}", p.site()), p.short()),
+    };
+    let loaded = match guard(|| load(&bytes)) {
+        Ok(Ok(b)) => b,
+        Ok(Err(e)) => return Verdict::fail("reload/error", e),
+        Err(p) => return Verdict::fail(format!("reload/panic:{}", p.site()), p.short()),
+    };
+    if loaded.get_sheet_count() != spec.sheets.len() {
+        return Verdict::fail("sheets/count", format!("{} sheets reloaded, {} saved", loaded.get_sheet_count(), spec.sheets.len()));
+    }
+    for (i, s) in spec.sheets.iter().enumerate() {
+        let ws = loaded.get_sheet(&i).unwrap();
+        if ws.get_name() != s.name {
+            return Verdict::fail("sheets/name", format!("sheet {} reloaded as {:?}, saved {:?}", i, ws.get_name(), s.name));
+        }
+        let got = dump_sheet(ws);
+        let exp = s.cell_map();
+        for (pos, c) in &exp {
+            let e = expected_cell(c);
+            let f = feature(c);
+            let at = format!("sheet {} {}{}", i, crate::props::c17::ref_col_name(pos.1), pos.0);
+            let g = got.get(pos);
+            if is_blank(&e) {
+                if let Some(g) = g {
+                    if !is_blank(g) {
+                        return Verdict::fail(format!("{}/resurrected", f), format!("{}: blank cell reloaded as {:?}", at, g));
+                    }
+                }
+                continue;
+            }
+            let Some(g) = g else {
+                return Verdict::fail(format!("{}/lost", f), format!("{}: {:?} missing after reload", at, e));
+            };
+            if g.formula != e.formula {
+                return Verdict::fail(format!("{}/formula-text", f), format!("{}: formula {:?} reloaded as {:?}", at, e.formula, g.formula));
+            }
+            if g.text != e.text {
+                return Verdict::fail(format!("{}/value-text", f), format!("{}: value {:?} reloaded as {:?} (kind {})", at, e.text, g.text, g.kind));
+            }
+            let kinds_equal = g.kind == e.kind || (e.text.is_empty() && matches!((e.kind, g.kind), ("blank", "text") | ("text", "blank")));
+            if !kinds_equal {
+                return Verdict::fail(format!("{}/kind-becomes-{}", f, g.kind), format!("{}: {} {:?} reloaded as {} {:?}", at, e.kind, e.text, g.kind, g.text));
+            }
+            if g.number != e.number && e.kind == "number" {
+                return Verdict::fail(format!("{}/number-bits", f), format!("{}: {:?} reloaded as {:?}", at, e.number.map(f64::from_bits), g.number.map(f64::from_bits)));
+            }
+            if e.kind == "rich" && g.runs != e.runs {
+                return Verdict::fail(format!("{}/rich-runs", f), format!("{}: runs {:?} reloaded as {:?}", at, e.runs, g.runs));
+            }
+        }
+        for (pos, g) in &got {
+            if !exp.contains_key(pos) && !is_blank(g) {
+                return Verdict::fail(
+                    "extra-cell",
+                    format!("sheet {} {}{}: cell {:?} appeared after reload", i, crate::props::c17::ref_col_name(pos.1), pos.0, g),
+                );
+            }
+        }
+    }
+    Verdict::Pass
+}
+
+fn subs() -> Vec<Box<dyn DynSub>> {
+    vec![Box::new(Sub {
+        name: "roundtrip",
+        strategy,
+        cases: (1500, 40_000),
+        check,
+        max_shrink_iters: 6000,
+    })]
 }
